@@ -160,8 +160,13 @@ func (c *ConfigSender) Group() curve.Curve {
 // If the secret share and public point are not nil, a refresh is done instead.
 func StartKeygen(group curve.Curve, receiver bool, selfID, otherID party.ID, secretShare curve.Scalar, public curve.Point, pl *pool.Pool) protocol.StartFunc {
 	return func(sessionID []byte) (round.Session, error) {
+		protocolID := "doerner/keygen"
+		if secretShare != nil || public != nil {
+			// refreshing existing shares is a different protocol than generating a key
+			protocolID = "doerner/refresh"
+		}
 		info := round.Info{
-			ProtocolID:       "doerner/keygen",
+			ProtocolID:       protocolID,
 			FinalRoundNumber: 3,
 			SelfID:           selfID,
 			PartyIDs:         party.NewIDSlice([]party.ID{selfID, otherID}),
